@@ -419,6 +419,24 @@ def parse_terminator(t):
     return None
 
 
+def split_trailing_group(body):
+    """'head(args)' -> (head, args) where (args) is the top-level paren group that ends the text; else (body, None)"""
+    i, n = 0, len(body)
+    while i < n:
+        c = body[i]
+        if c == '"':
+            i = skip_string(body, i)
+            continue
+        if c in '([{':
+            j = match_close(body, i)
+            if c == '(' and j == n - 1:
+                return body[:i], body[i + 1:-1]
+            i = j + 1
+            continue
+        i += 1
+    return body, None
+
+
 def split_assign(t):
     """split 'LHS = RHS' at the first top-level ' = ' (None if there is none)."""
     depth = 0
